@@ -466,10 +466,22 @@ func (b BrokenFeatures) Error() string {
 }
 
 func (b *BasicWorldBuilder) Finish(o *BuildOptions) (b6.World, error) {
+	// Areas are handled in a second stage, as their validity depends on the
+	// paths they're built from: by then, invalid paths have been dropped,
+	// and clockwise paths inverted.
 	stages := []func(toIndex chan<- Feature, byID *FeaturesByID){
 		func(c chan<- Feature, features *FeaturesByID) {
 			for _, feature := range *features {
-				c <- feature
+				if feature.FeatureID().Type != b6.FeatureTypeArea {
+					c <- feature
+				}
+			}
+		},
+		func(c chan<- Feature, features *FeaturesByID) {
+			for _, feature := range *features {
+				if feature.FeatureID().Type == b6.FeatureTypeArea {
+					c <- feature
+				}
 			}
 		},
 	}
